@@ -303,4 +303,5 @@ _targets_with_zhit = targets
 
 def targets():      # noqa: F811
     from . import dataflow as DF
-    return _targets_with_zhit() + [DF.target_trnnls("steps")]
+    from . import steps
+    return _targets_with_zhit() + [DF.target_trnnls("steps")] + steps.targets()
